@@ -456,7 +456,13 @@ def generate(unit_name, repo=None, extra_fn_hook=None, canary=False, findings=Fa
         path = os.path.join(repo, file)
         if not os.path.exists(path):
             raise LostAnchor("source file %s missing" % file)
-        sf = SourceFile(file, open(path).read())
+        ftext = open(path).read()
+        for a, b in src.get("rename", []):
+            # type names of this file that clash with another file's in the single generated module (stated, purely textual)
+            ftext = re.sub(r"(?<![A-Za-z0-9_])%s(?![A-Za-z0-9_])" % re.escape(a), b, ftext)
+        if src.get("rename"):
+            info.setdefault("item_rules", []).append({"item": file, "rule": "rename %s" % src["rename"]})
+        sf = SourceFile(file, ftext)
         out.add("// ==== %s ====" % file)
         if src.get("variant_uses", True):
             for u in variant_uses(sf):
